@@ -154,7 +154,8 @@ impl LazyRaw {
             return Ok(unsafe { &*ptr });
         }
 
-        let mut parser = crate::parser::Parser::new(crate::Read::from(&self.raw));
+        let mut parser = crate::parser::Parser::new(crate::Read::from(&self.raw))
+            .with_config(crate::config::DeserializeCfg::from_features());
         let mut strbuf: Vec<u8> = Vec::new();
         let olv: OwnedLazyValue = parser.load_owned_lazyvalue(&mut strbuf)?;
         let OwnedLazyValue(LazyPacked::Parsed(v)) = olv else {
@@ -184,7 +185,8 @@ impl LazyRaw {
             return Ok(*v);
         }
 
-        let mut parser = crate::parser::Parser::new(crate::Read::from(&self.raw));
+        let mut parser = crate::parser::Parser::new(crate::Read::from(&self.raw))
+            .with_config(crate::config::DeserializeCfg::from_features());
         let mut strbuf: Vec<u8> = Vec::new();
         let olv: OwnedLazyValue = parser.load_owned_lazyvalue(&mut strbuf)?;
         let OwnedLazyValue(LazyPacked::Parsed(v)) = olv else {
